@@ -2233,6 +2233,24 @@ impl Kanata {
     }
 }
 
+#[cfg(kanata_verif)]
+impl Kanata {
+    /// Verification seam (hook H3): lets a harness that drives `Kanata` without the processing
+    /// loop thread run the loop's per-iteration time handling — ticks, layer-change notification
+    /// and the deferred live reload — exactly as `start_processing_loop` does.
+    pub fn verif_handle_time_ticks(
+        &mut self,
+        tx: &Option<Sender<ServerMessage>>,
+    ) -> Result<u16> {
+        self.handle_time_ticks(tx)
+    }
+
+    /// Verification probe: is a live reload pending?
+    pub fn verif_live_reload_requested(&self) -> bool {
+        self.live_reload_requested
+    }
+}
+
 #[test]
 fn test_unmodmods_bits() {
     assert_eq!(UnmodMods::empty().bits(), 0u8);
